@@ -115,7 +115,8 @@ Definition cid := nat.
 Inductive outcome :=
 | Return (v : val)
 | RaiseExn (cls msg : str)            (* raise cls(msg) from the body *)
-| RaiseTypeErrorInBody (msg : str).   (* raise TypeError(msg) from the body (finding F13) *)
+| RaiseTypeErrorInBody (msg : str)    (* raise TypeError(msg) from the body (finding F13) *)
+| ReturnFault (code : Z) (msg : str). (* return Fault(code, msg): a Fault object built by user code (with whatever config) *)
 
 (** def f(p1, …, pn [last sg_ndef of them with defaults], *args?, k1[=d], …, **kw?) *)
 Record signature := mkSig {
@@ -249,6 +250,7 @@ Section Dispatcher.
       match body c params with
       | Return v => (DVal v, [EvCall c params])
       | RaiseTypeErrorInBody m => (DFault (-32602) ("Invalid parameters: " ++ m), [EvCall c params])
+      | ReturnFault code m => (DFault code m, [EvCall c params])     (* dumped with the REQUEST's config (jsonrpc.dump) *)
       | RaiseExn cls m =>
           if String.eqb cls "TypeError"
           then (DFault (-32602) ("Invalid parameters: " ++ m), [EvCall c params])
@@ -274,6 +276,7 @@ Section Dispatcher.
     | Return v => (DVal v, ev)
     | RaiseExn cls m => (DExn cls m, ev)
     | RaiseTypeErrorInBody m => (DExn "TypeError" m, ev)
+    | ReturnFault code m => (DFault code m, ev)
     end.
 
   (** SimpleJSONRPCDispatcher._dispatch(method, params, config) *)
@@ -595,7 +598,8 @@ Inductive behaviour :=
 | BReturn (v : val)
 | BEcho                         (* returns its arguments *)
 | BRaise (cls msg : str)
-| BTypeErr (msg : str).
+| BTypeErr (msg : str)
+| BFault (code : Z) (msg : str).  (* returns jsonrpclib.Fault(code, msg) built with the default config *)
 
 Record cdesc := mkC { cd_sig : signature; cd_beh : behaviour }.
 
@@ -616,6 +620,7 @@ Definition body_of (t : list cdesc) (c : cid) (args : val) : outcome :=
               | BEcho => Return (echo_val args)
               | BRaise cls m => RaiseExn cls m
               | BTypeErr m => RaiseTypeErrorInBody m
+              | BFault code m => ReturnFault code m
               end
   | None => RaiseExn "NoSuchCallable" ""
   end.
